@@ -172,10 +172,10 @@ def c06(ctx):
         jobs = hist_jobs(ctx, "c06", 48, 1000) + hist_jobs(ctx, "c06", 8, 600, flavour="asan", first=1000, per_proc=1) + \
             conc_jobs(ctx, 8, 40, native=0, variant=[0, 1], first=300000, tag="c06") + enum_jobs(ctx, 300, 4, 1, 1, tag="c06")
     else:
-        jobs = hist_jobs(ctx, "c06", 1000, 2500, per_proc=16) + \
-            hist_jobs(ctx, "c06", 160, 1200, flavour="asan", first=100000, per_proc=8) + \
-            conc_jobs(ctx, 32, 300, native=0, variant=[0, 1], first=300000, tag="c06") + \
-            conc_jobs(ctx, 8, 100, native=1, variant=[0, 1], first=3000000, tag="c06n") + enum_jobs(ctx, 300, 4, 2, 16, tag="c06")
+        jobs = hist_jobs(ctx, "c06", 640, 2500, per_proc=16) + \
+            hist_jobs(ctx, "c06", 96, 1200, flavour="asan", first=100000, per_proc=8) + \
+            conc_jobs(ctx, 16, 300, native=0, variant=[0, 1], first=300000, tag="c06") + \
+            conc_jobs(ctx, 4, 100, native=1, variant=[0, 1], first=3000000, tag="c06n") + enum_jobs(ctx, 300, 2, 2, 16, tag="c06")
     agg = Agg().add(runner.run_jobs(jobs))
     extras = hist_common_extras(agg)
     extras.update(snapshots_taken=agg.n("snapshots_taken"), snapshot_revalidations=agg.n("snapshot_revalidations"),
